@@ -32,8 +32,9 @@ FALSE_SP = ["no", "false", "0", "off"]
 JUNK_SP = ["y", "t", "enabled", "2", "-1", "", "yes!", "tru e", "ｙｅｓ", "oK", "yeſ", "none", "True.", "n"]
 MSG_FRAGS = ["bump", "version", " ", "  ", "#", ";", "=", "%", "%(x)s", "{new_version}", "{old_version}", "'", '"', "->", ":", "[", "]", "ä",
              "release", "{new_version_pep440}", "$", "\\", "!", ",", "日本"]
-PROJECT_FILES = ["README.md", "setup.py", "src/pkg/__init__.py", "src/pkg/mod.py", "docs/conf.py", "Änderungen.txt", "a b.txt", "UPPER.TXT"]
-FILE_KEYS = ["README.md", "setup.py", "src/pkg/__init__.py", "docs/conf.py", "Änderungen.txt", "a b.txt", "UPPER.TXT", "missing.txt",
+PROJECT_FILES = ["README.md", "setup.py", "src/pkg/__init__.py", "src/pkg/mod.py", "docs/conf.py", "Änderungen.txt", "a b.txt", "UPPER.TXT",
+                 "VERSION", "Dockerfile", "Makefile"]          # (identifier-like names without a dot: INI option names are case-SENSITIVE file names)
+FILE_KEYS = ["README.md", "setup.py", "src/pkg/__init__.py", "docs/conf.py", "Änderungen.txt", "a b.txt", "UPPER.TXT", "missing.txt", "VERSION", "Dockerfile", "Makefile",
              "src/pkg/*.py", "*.md", "docs/*.nothing", "**/conf.py", "src/*/mod.py", SELF]
 PATTERNS_V2 = ["{version}", "{pep440_version}", '__version__ = "{version}"', "version: {version}", "Copyright (c) YYYY", "release = '{version}'",
                "v=MAJOR.MINOR", "badge?message={version}&color=blue ; x # y", '"{version}"', "100% {version}", "{version} = {pep440_version}",
